@@ -21,7 +21,10 @@ from odxmodel.harness import jval, show
 PROPERTY = "C04"
 LEVEL = "model_checking"
 
-WRONG = [None, 1.5, "1", b"\x01", [], {}, (None, None), True, 1 << 64, -1]
+WRONG = [None, 1.5, "1", b"\x01", [], {}, (None, None), True, 1 << 64, -1, float("inf"), float("-inf"), float("nan")]
+
+
+_TOL = [False]
 
 
 def loose_equal(want: Any, got: Any) -> bool:
@@ -39,8 +42,10 @@ def loose_equal(want: Any, got: Any) -> bool:
     if isinstance(want, (bytes, bytearray)) or isinstance(got, (bytes, bytearray)):
         return isinstance(want, (bytes, bytearray)) and isinstance(got, (bytes, bytearray)) and bytes(want) == bytes(got)
     if isinstance(want, (int, float)) and isinstance(got, (int, float)):
-        if want == got:
+        if want == got or (want != want and got != got):  # (NaN decodes back as NaN)
             return True
+        if _TOL[0] and abs(want - got) <= 1e-9 * max(1.0, abs(want)):
+            return True  # through a compu method: the image of the image differs by floating point rounding only
         if isinstance(want, float) or isinstance(got, float):
             try:  # A_FLOAT32 carries 24 significant bits: rounding to the nearest representable value is no misrepresentation
                 return struct.unpack(">f", struct.pack(">f", want))[0] == got
@@ -59,7 +64,7 @@ def perturbations(values: Dict[str, Any], params: List[Dict[str, Any]]) -> Itera
     yield "unknown-param", dict(values, zz_unknown=1)
     for k, v in values.items():
         for w in WRONG:
-            if w is None or type(w) is type(v) and not isinstance(v, (int, bool)):
+            if w is None or type(w) is type(v) and not isinstance(v, (int, bool)) and not (isinstance(w, float) and (w != w or w in (float("inf"), float("-inf")))):
                 continue
             if isinstance(v, int) and not isinstance(v, bool) and isinstance(w, int) and not isinstance(w, bool) and w in (1 << 64, -1):
                 yield "out-of-range", dict(values, **{k: w})
@@ -135,6 +140,7 @@ def check_program(L: harness.Loaded, prog: Dict[str, Any], part: Part) -> None:
     msg = L.msg[prog["pid"]]
     tag = tagkey(prog)
     bk = backend()
+    _TOL[0] = prog["tags"][0] == "compu"
     for kind, values in assignments(prog):
         part.count("evaluations")
         case = {"program": prog_case(prog), "values": jval(values), "backend": bk}
@@ -184,6 +190,7 @@ def units_for(ctx: Ctx) -> List[Tuple[str, List[Dict[str, Any]]]]:
     u = space.layer_a_int_units(ctx.quick, wide=True)
     u += space.layer_a_mask_units(ctx.quick) + space.layer_a_float_units(ctx.quick, wide=True) + space.layer_a_string_units(ctx.quick, wide=True)
     u += space.layer_a_minmax_units(ctx.quick) + space.layer_a_lead_units(ctx.quick, wide=True) + space.layer_a_plen_units(ctx.quick)
+    u += space.layer_b_units(ctx.quick)
     progs = [p for p in space.layer_c_programs(ctx.quick) if len(p["tags"][1].split("+")) <= 3]
     chunk = 150
     u += [(f"C/{c // chunk}", progs[c:c + chunk]) for c in range(0, len(progs), chunk)]
